@@ -396,6 +396,9 @@ func (e *Exec) loopHeader(b *ssa.BasicBlock, preds []*ssa.BasicBlock) {
 		for k, inv := range spec.invariant {
 			t := e.invExpr(inv.expr, b, cur, true)
 			e.assume(implies(reach, t))
+			if e.parent == nil {
+				e.root().invRecords = append(e.root().invRecords, invRecord{head: b, cur: cur, expr: inv.expr, reach: reach})
+			}
 			if e.parent == nil && !e.noObl {
 				ti := invInit[k]
 				r := e.root()
@@ -469,6 +472,15 @@ func (e *Exec) loopHeader(b *ssa.BasicBlock, preds []*ssa.BasicBlock) {
 			e.root().summaries = append(e.root().summaries, loopSummary{l: l, K: K, init: initT, cont: cont, reach: reach, nested: len(e.bound) > 0, shift: shift})
 		}
 	}
+}
+
+// invRecord remembers a declared invariant assumed at a loop head, so that later instantiation terms (for example the
+// image of a goal constant under a sort permutation) can be fed to it.
+type invRecord struct {
+	head  *ssa.BasicBlock
+	cur   map[*ssa.Phi]Term
+	expr  *Expr
+	reach Term
 }
 
 type loopSummary struct {
@@ -651,7 +663,7 @@ func (e *Exec) invExpr(x *Expr, head *ssa.BasicBlock, phiVals map[*ssa.Phi]Term,
 	e.curBlock = head
 	defer func() { e.curBlock = savedBlock }()
 	if asAssumption {
-		env.instAt = e.root().goalSk
+		env.instAt = append(append([]Term{}, e.root().goalSk...), e.root().extraInst...)
 	} else {
 		env.goalSk = e.root().goalSk
 	}
